@@ -21,6 +21,11 @@ class ModelRaises(Exception):
     """the model says: this input must be rejected (any exception is acceptable)"""
 
 
+class Approx(complex):
+    """a number the model obtained through cos/sin (polar notation): compared with a tolerance; everything
+    else in a document must come back exactly (JSON and YAML both reproduce binary64 exactly)"""
+
+
 def m_complex(z, degree=False):
     """Cartesian and polar (radian or degree) notations denote the same number."""
     if isinstance(z, dict) and "real" in z and "imag" in z:
@@ -40,12 +45,12 @@ def m_undictify(v):
         if ks == ["abs", "phase"]:
             if v["abs"] < 0:
                 raise ModelRaises("negative abs")
-            return complex(v["abs"] * math.cos(v["phase"]), v["abs"] * math.sin(v["phase"]))
+            return Approx(v["abs"] * math.cos(v["phase"]), v["abs"] * math.sin(v["phase"]))
         if ks == ["abs", "phase_deg"]:
             if v["abs"] < 0:
                 raise ModelRaises("negative abs")
             ph = v["phase_deg"] * math.pi / 180
-            return complex(v["abs"] * math.cos(ph), v["abs"] * math.sin(ph))
+            return Approx(v["abs"] * math.cos(ph), v["abs"] * math.sin(ph))
         return {k: m_undictify(x) for k, x in v.items()}
     if isinstance(v, list):
         return [m_undictify(x) for x in v]
@@ -103,6 +108,17 @@ def _close(a, b, tol=MODEL_TOL):
     return True
 
 
+def _exact(a, b):
+    """same number, bit for bit in every real part (1 == 1.0 is accepted, 0.0 vs -0.0 is not)"""
+    ca, cb = complex(a), complex(b)
+    for p, q in ((ca.real, cb.real), (ca.imag, cb.imag)):
+        if math.isnan(p) and math.isnan(q):
+            continue
+        if p != q or math.copysign(1.0, p) != math.copysign(1.0, q):
+            return False
+    return True
+
+
 def _same_doc(got, exp, path="$"):
     """structural equality with complex leaves compared by value (1 == 1.0, 1+0j == 1)"""
     if isinstance(exp, dict):
@@ -128,7 +144,9 @@ def _same_doc(got, exp, path="$"):
     if isinstance(exp, (int, float, complex)):
         if isinstance(got, bool) or not isinstance(got, (int, float, complex)):
             return f"{path}: {got!r} is not the number {exp!r}"
-        return None if _close(got, exp) else f"{path}: {got!r} != {exp!r}"
+        if isinstance(exp, Approx):
+            return None if _close(got, exp) else f"{path}: {got!r} != {exp!r}"
+        return None if _exact(got, exp) else f"{path}: {got!r} != {exp!r} (exactly)"
     return None if got == exp else f"{path}: {got!r} != {exp!r}"
 
 
